@@ -24,6 +24,8 @@ import PybropsModel.Lemmas.SelProtEquiv
 import PybropsModel.Lemmas.SelProtStable
 import PybropsModel.Lemmas.SelProtStablePerm
 import PybropsModel.Lemmas.SelProtSpace
+import PybropsModel.Lemmas.XConfigRepair
+import PybropsModel.Lemmas.SelProtOracle
 set_option autoImplicit false
 set_option linter.unusedSectionVars false
 set_option linter.unusedVariables false
@@ -633,6 +635,21 @@ theorem truncation_stable_unique (obj : List α) (k : Nat) (S : List Nat) (hS : 
     ∀ i, i ∈ S ↔ i ∈ sortingSubset obj k :=
   stableTopK_unique obj k S _ hS (sortingSubset_stableTopK obj k)
 
+/-- **Truncation is exact whatever order numpy's (unstable) argsort returns tied candidates in.**  The optimiser
+    with `obj.argsort(0)` as an oracle input `sigma`: for EVERY permutation `sigma` of the candidates along which
+    the objective values do not decrease, the first `k` positions are a best-`k` set.  (The driver validates the
+    recorded `sigma` with `validArgsort` — `argsort_oracle_sound` — so the model's decision equals the
+    implementation's exactly, ties included.) -/
+theorem truncation_exact_any_argsort (obj : List α) (sigma : List Nat) (k : Nat) (v : ValidArgsort obj sigma) :
+    TopK obj k (sortingSubsetWith sigma k) :=
+  sortingSubsetWith_topK obj sigma k v
+
+/-- the Bool check the driver applies to the recorded argsort implies the hypothesis of
+    `truncation_exact_any_argsort` -/
+theorem argsort_oracle_sound (obj : List α) (sigma : List Nat) (h : validArgsort obj sigma = true) :
+    ValidArgsort obj sigma :=
+  validArgsort_sound obj sigma h
+
 /-- **Permutation / relabelling, ties allowed, in terms of individuals.**  Present the candidates in the
     order `π` (`obj' i = obj (π i)`): mapped back through `π`, the decision taken on the permuted population
     is again a best-`k` set of the original population (which one among tied candidates depends on their
@@ -722,6 +739,12 @@ example : TieMonotone ([4, 1, 4, 1] : List Int) [1, 0, 3, 2] := by
   simp only [List.length_cons, List.length_nil] at hi hj
   interval_cases i <;> interval_cases j <;> simp_all <;> omega
 example : sortingSubset ([3, 1, 5, 2, 9, 0] : List Int) 3 = [5, 1, 3] := by decide
+-- two argsorts of the tied values (4,1,4,1,1): the stable one and another one; both pass the driver's check and
+-- give best-2 sets with different members
+example : validArgsort ([4, 1, 4, 1, 1] : List Int) [1, 3, 4, 0, 2] = true ∧
+    validArgsort ([4, 1, 4, 1, 1] : List Int) [4, 1, 3, 2, 0] = true ∧
+    validArgsort ([4, 1, 4, 1, 1] : List Int) [0, 1, 3, 4, 2] = false ∧
+    sortingSubsetWith [4, 1, 3, 2, 0] 2 = [4, 1] ∧ sortingSubset ([4, 1, 4, 1, 1] : List Int) 2 = [1, 3] := by decide
 -- ties: the stable sort takes the first of the tied candidates
 example : sortingSubset ([4, 1, 4, 1, 1] : List Int) 2 = [1, 3] ∧ sortingSubset ([4, 1, 4, 1, 1] : List Int) 4 = [1, 3, 4, 0] := by
   decide
@@ -1084,5 +1107,192 @@ example : subsetSpace 6 4 = ⟨4, [0, 1, 2, 3, 4, 5], [0, 0, 0, 0], [5, 5, 5, 5]
     vectorSpace 3 12 = ⟨3, [], [0, 0, 0], [12, 12, 12]⟩ ∧
     specSpace true 6 ⟨4, [0, 1, 2, 3, 4], [0, 0, 0, 0], [5, 5, 5, 5]⟩ = false ∧
     specSpace false 3 ⟨3, [], [0, 0, 0], [12, 12]⟩ = false := by decide
+
+/-! ## 11. Proposed repair of D20 (`patch_D20.diff`, not applied): the integer encodings at full strength -/
+
+/-- **The repaired integer configuration meets the FULL STATEMENT of `integer_share_partial`.**  With
+    `proportional_choice` in place of `repeat` + `tiled_choice`, for every contribution vector with a positive
+    sum, every shape and every legitimate sequence of generator draws: the whole Spec holds (shape, support,
+    every use count within one of the proportional share, exchange-optimal), and in fact every candidate is
+    used the floor or the ceiling of `ncross·nparent·dᵢ/Σd` times.  No divisibility hypothesis. -/
+theorem integer_share_repaired (decn : List Nat) (nc np : Nat) (extra perm : List Nat)
+    (orders rowperms : List (List Nat)) (rows : Rows)
+    (vs : ValidShare decn (nc * np) extra perm) (va : ValidArrange nc np orders rowperms)
+    (h : sampleIntegerRepaired decn nc np extra perm orders rowperms = .ok rows) :
+    specContribution (decn.map (fun (d : Nat) => (d : Rat))) nc np rows = true ∧
+      ∀ i, i < decn.length →
+        rows.flatten.count i = nc * np * decn.getD i 0 / decn.sum ∨
+        rows.flatten.count i = nc * np * decn.getD i 0 / decn.sum + 1 := by
+  obtain ⟨flat, hf, hl, hc⟩ := proportionalChoice_ok decn (nc * np) extra perm vs
+  have harr : arrange flat nc np orders rowperms = .ok rows := by
+    unfold sampleIntegerRepaired at h
+    rw [hf] at h
+    exact h
+  obtain ⟨hr, hp, ho, _⟩ := arrange_facts hl va harr
+  have hcount : ∀ i, rows.flatten.count i =
+      if i < decn.length then nc * np * decn.getD i 0 / decn.sum + extra.count i else 0 := by
+    intro i; rw [hp.count_eq]; exact hc i
+  refine ⟨?_, ?_⟩
+  · simp only [specContribution, Bool.and_eq_true]
+    refine ⟨⟨⟨(shapeOk_iff _ _ _).mpr hr, (supportOk_cast_iff _ _).mpr ?_⟩, ?_⟩, (localOpt_iff _ _ _).mpr ho⟩
+    · intro i hi
+      have hpos : 0 < rows.flatten.count i := List.count_pos_iff.mpr hi
+      rw [hcount i] at hpos
+      by_cases hlt : i < decn.length
+      · refine ⟨hlt, ?_⟩
+        rw [if_pos hlt] at hpos
+        by_contra hn
+        have hz : decn.getD i 0 = 0 := by omega
+        rw [hz, extra_count_zero_of_zero vs i hz] at hpos
+        simp at hpos
+      · rw [if_neg hlt] at hpos; omega
+    · rw [withinOne_cast_iff]
+      intro i hi
+      rw [hcount i, if_pos hi]
+      exact floor_ceil_within_one (nc * np) (decn.getD i 0) decn.sum (extra.count i) vs.pos (extra_count_le_one vs i)
+  · intro i hi
+    rw [hcount i, if_pos hi]
+    have := extra_count_le_one vs i
+    rcases Nat.le_one_iff_eq_zero_or_eq_one.mp this with e | e
+    · left; rw [e, Nat.add_zero]
+    · right; rw [e]
+
+/-- … and the repair leaves the case without remainder as it is: when `Σd` divides the number of slots
+    nothing is drawn (`left = 0`) and candidate `i` is used exactly `(N/Σd)·dᵢ` times — the count
+    `integer_xconfig` gives for the as-is code. -/
+theorem integer_repaired_agrees_when_divisible (decn : List Nat) (nc np : Nat) (extra perm : List Nat)
+    (orders rowperms : List (List Nat)) (rows : Rows)
+    (vs : ValidShare decn (nc * np) extra perm) (va : ValidArrange nc np orders rowperms)
+    (hdiv : (nc * np) % decn.sum = 0)
+    (h : sampleIntegerRepaired decn nc np extra perm orders rowperms = .ok rows) :
+    ∀ i, i < decn.length → rows.flatten.count i = (nc * np / decn.sum) * decn.getD i 0 := by
+  obtain ⟨flat, hf, hl, hc⟩ := proportionalChoice_ok decn (nc * np) extra perm vs
+  have harr : arrange flat nc np orders rowperms = .ok rows := by
+    unfold sampleIntegerRepaired at h
+    rw [hf] at h
+    exact h
+  obtain ⟨_, hp, _, _⟩ := arrange_facts hl va harr
+  intro i hi
+  rw [hp.count_eq, hc i, if_pos hi]
+  have hdvd : decn.sum ∣ nc * np := Nat.dvd_of_mod_eq_zero hdiv
+  have hq : nc * np * decn.getD i 0 / decn.sum = nc * np / decn.sum * decn.getD i 0 := by
+    obtain ⟨q, hq⟩ := hdvd
+    rw [hq, Nat.mul_div_cancel_left _ vs.pos, Nat.mul_assoc, Nat.mul_div_cancel_left _ vs.pos]
+  have he : extra.count i = 0 := by
+    apply List.count_eq_zero.mpr
+    intro hm
+    have h2 := (vs.frac i hm).2
+    obtain ⟨q, hq'⟩ := hdvd
+    rw [hq', Nat.mul_assoc, Nat.mul_mod_right] at h2
+    omega
+  rw [hq, he, Nat.add_zero]
+
+-- the input of D20 under the repair: contributions (4,4) on 2x2 slots, nothing left to draw, both used twice
+example : ValidShare [4, 4] (2 * 2) [] [3, 0, 2, 1] :=
+  ⟨by decide, by decide, by simp, by decide, by decide⟩
+example : sampleIntegerRepaired [4, 4] 2 2 [] [3, 0, 2, 1] [[0, 1, 2, 3, 4, 5], [0, 1, 2, 3, 4, 5]] [[0, 1], [1, 0]]
+    = .ok [[1, 0], [0, 1]] := by decide
+-- a genuine remainder: contributions (1,2) on 2x2 slots: shares 4/3, 8/3; floors 1, 2; one slot left for a
+-- candidate with a non-zero fractional part
+example : ValidShare [1, 2] (2 * 2) [1] [0, 1, 2, 3] :=
+  ⟨by decide, by decide, by intro i hi; simp at hi; subst hi; decide, by decide, by decide⟩
+example : shareCounts [1, 2] 4 [1] = [1, 3] ∧ shareLeft [1, 2] 4 = 1 := by decide
+
+/-! ## 12. One configuration object over its lifetime -/
+
+/-- **Every table follows the decision in force when it was sampled — for every history.**  Whatever sequence of
+    re-assignments, in-place revisions and samples a configuration object goes through (each sample with
+    legitimate generator draws for the decision then in force), every table it has ever produced satisfies the
+    whole subset Spec for the decision recorded with it; nothing carries over from an earlier decision. -/
+theorem history_every_table_follows_its_decision (nc np : Nat) (ops : List CfgOp) (s : CfgState)
+    (hcur : s.decn.Nodup) (hv : ValidHistory nc np s.decn ops)
+    (hs : ∀ p ∈ s.tables, ∃ rows, p.2 = .ok rows ∧ specSubset p.1 nc np rows = true) :
+    ∀ p ∈ (cfgRun nc np s ops).tables, ∃ rows, p.2 = .ok rows ∧ specSubset p.1 nc np rows = true := by
+  induction ops generalizing s with
+  | nil => exact hs
+  | cons op rest ih =>
+    rw [cfgRun_cons]
+    cases op with
+    | assign d =>
+      obtain ⟨hd, hr⟩ := hv
+      exact ih { s with decn := d } hd hr hs
+    | edit d =>
+      obtain ⟨hd, hr⟩ := hv
+      exact ih { s with decn := d } hd hr hs
+    | sample rem perm orders rowperms =>
+      obtain ⟨vt, va, hn, hr⟩ := hv
+      apply ih (cfgStep nc np s (.sample rem perm orders rowperms)) hcur hr
+      intro p hp
+      simp only [cfgStep, List.mem_cons] at hp
+      rcases hp with rfl | hp
+      · obtain ⟨rows, hrows⟩ := subset_sampling_total s.decn nc np rem perm orders rowperms vt hn
+        exact ⟨rows, hrows, subset_xconfig_spec s.decn nc np rem perm orders rowperms rows hcur vt va hrows⟩
+      · exact hs p hp
+
+/-- the history theorem is about the code as it is (the decision is read afresh on every `sample_xconfig`).  A
+    configuration that snapshots the values at the first sample after an assignment (seeded change C07-d1) breaks
+    it on the shortest history with an in-place revision: sample, revise `[0,1]` to `[2,3]`, sample — the second
+    table is recorded for `[2,3]` but made of `0` and `1`. -/
+theorem history_stale_values_counterexample :
+    (cfgRunCached 2 2 ⟨[0, 1], none, []⟩
+        [.sample [] [0, 1, 2, 3] [List.range 6, List.range 6, List.range 6] [[0, 1], [0, 1]], .edit [2, 3],
+         .sample [] [0, 1, 2, 3] [List.range 6, List.range 6, List.range 6] [[0, 1], [0, 1]]]).tables.head?
+      = some ([2, 3], .ok [[0, 1], [0, 1]]) ∧
+    specSubset [2, 3] 2 2 [[0, 1], [0, 1]] = false ∧
+    (cfgRun 2 2 ⟨[0, 1], []⟩
+        [.sample [] [0, 1, 2, 3] [List.range 6, List.range 6, List.range 6] [[0, 1], [0, 1]], .edit [2, 3],
+         .sample [] [0, 1, 2, 3] [List.range 6, List.range 6, List.range 6] [[0, 1], [0, 1]]]).tables.head?
+      = some ([2, 3], .ok [[2, 3], [2, 3]]) := by decide
+
+example : ValidHistory 1 2 [0, 1]
+    [.sample [] [1, 0] [[0], [0], [0]] [[1, 0]], .edit [2, 3], .sample [] [0, 1] [[0], [0], [0]] [[0, 1]]] := by
+  refine ⟨⟨by decide, by decide, List.Sublist.subperm (by decide), by decide⟩, ⟨by decide, ?_, by decide, ?_⟩, by decide,
+    by decide, ⟨by decide, by decide, List.Sublist.subperm (by decide), by decide⟩, ⟨by decide, ?_, by decide, ?_⟩, by decide,
+    trivial⟩
+  all_goals (intro p hp; simp at hp; subst hp; decide)
+example : (cfgRun 1 2 ⟨[0, 1], []⟩
+    [.sample [] [1, 0] [[0], [0], [0]] [[1, 0]], .edit [2, 3], .sample [] [0, 1] [[0], [0], [0]] [[0, 1]]]).tables
+    = [([2, 3], .ok [[2, 3]]), ([0, 1], .ok [[0, 1]])] := by decide
+
+/-! ## 13. `spec_iff` of the remaining Spec oracles; mate-selection tables are not to be re-arranged -/
+
+/-- what the decision-space Spec says (`spec_iff`): bound vectors of length `ndecn` with `lower ≤ upper`
+    entrywise; subset encodings offer each of the `nopt` candidates exactly once and nothing else; vector
+    encodings have one variable per candidate and a positive upper bound -/
+theorem space_spec_iff (subset : Bool) (nopt : Nat) (s : Space) :
+    specSpace subset nopt s = true ↔
+      s.lower.length = s.ndecn ∧ s.upper.length = s.ndecn ∧ (∀ p ∈ s.lower.zip s.upper, p.1 ≤ p.2) ∧
+      (if subset then (∀ i, i < nopt → s.space.count i = 1) ∧ ∀ i ∈ s.space, i < nopt
+       else s.ndecn = nopt ∧ ∀ u ∈ s.upper, 0 < u) :=
+  specSpace_iff subset nopt s
+
+/-- what the coverage Spec says (`spec_iff`): every admissible candidate cross is, as a multiset of parents, the
+    map row of some member of the decision space -/
+theorem cover_spec_iff (cands xmap : List (List Nat)) (space : List Nat) :
+    specCover cands xmap space = true ↔
+      ∀ t ∈ cands, ∃ d ∈ space, ∃ r, xmap[d]? = some r ∧ r.Perm t :=
+  specCover_iff cands xmap space
+
+/-- what the subset mate-selection Spec says (`spec_iff`): `ncross` rows of `nparent` entries, every row IS the
+    map row of a member of the decision (parents in the map's order — not merely the same individuals), and
+    the members are used evenly -/
+theorem mate_subset_spec_iff (decn : List Nat) (xmap : Rows) (nc np : Nat) (rows : Rows) :
+    specMateSubset decn xmap nc np rows = true ↔
+      Rect nc np rows ∧ (∀ r ∈ rows, ∃ d ∈ decn, xmap[d]? = some r) ∧
+      (∀ a ∈ decn, ∀ b ∈ decn,
+        ((rows.map (crossIndex xmap decn)).filterMap id).count a ≤
+        ((rows.map (crossIndex xmap decn)).filterMap id).count b + 1) :=
+  specMateSubset_iff decn xmap nc np rows
+
+/-- **Mate-selection tables must stay as looked up.**  Passing the table of a mate-selection configuration
+    through `outcross_shuffle` (seeded change C07-d3) breaks up a chosen self cross: from the solution
+    {(1,4), (2,4), (5,5)} over six individuals it makes {(5,4), (2,4), (1,5)} — two crosses that were not chosen.
+    The as-is sampler returns the three chosen crosses (`mate_subset_xconfig_spec`). -/
+theorem mate_outcrossed_counterexample :
+    sampleMate [9, 13, 20] (xmapix 6 2 false) 3 [] [0, 1, 2] [0, 1, 2] = .ok [[1, 4], [2, 4], [5, 5]] ∧
+    specMateSubset [9, 13, 20] (xmapix 6 2 false) 3 2 [[1, 4], [2, 4], [5, 5]] = true ∧
+    sampleMateOutcrossed [9, 13, 20] (xmapix 6 2 false) 3 2 [] [0, 1, 2] [0, 1, 2]
+        [List.range 15, List.range 15, List.range 15] = .ok [[5, 4], [2, 4], [1, 5]] ∧
+    specMateSubset [9, 13, 20] (xmapix 6 2 false) 3 2 [[5, 4], [2, 4], [1, 5]] = false := by decide
 
 end C07
